@@ -105,6 +105,50 @@ def parse_groups(case):
     return groups
 
 
+def parse_parents(case):
+    """parent of each sub-group: -1 = main handler (5th field of the g: token)"""
+    out = []
+    for t in case.split(' '):
+        if t.startswith('g:'):
+            f = t.split(':')
+            out.append(int(f[4]) if len(f) > 4 else -1)
+    return out
+
+
+def path_expectation(case, flags, args, groups, q):
+    """--help-arg=<path with slashes> : (expected error outcome or None, want_out, want_err, printed by the main handler);
+    None when the oracle does not judge the path (empty components)"""
+    parents = parse_parents(case)
+    comps = q.split('/')
+    if any(c == '' for c in comps):
+        return None
+    node = -1
+    for j, comp in enumerate(comps[:-1]):
+        kids = [(i, _std(*split_key(groups[i][0]), groups[i][2])) for i in range(len(groups)) if parents[i] == node]
+        abbr = not ((flags if node < 0 else groups[node][1]) & F['NoAbbr'])
+        how, d = lookup([k for _, k in kids], abbr, comp)
+        if how == 'ambiguous':
+            return ('err:runtime_error', [], [], False)
+        if how == 'unknown':
+            return (None, [], [('C', "*** ERROR: Sub-group argument '%s' is unknown!" % '/'.join(comps[j:]))], node < 0)
+        node = [i for i, k in kids if k is d][0]
+    nflags = flags if node < 0 else groups[node][1]
+    own = (std_args(flags) + [descr(a) for a in args]) if node < 0 else \
+        (std_args(nflags & 3) + [descr(a) for a in groups[node][3]])
+    kids = [_std(*split_key(groups[i][0]), groups[i][2]) for i in range(len(groups)) if parents[i] == node]
+    abbr = not (nflags & F['NoAbbr'])
+    last = comps[-1]
+    how, d = lookup(own, abbr, last)
+    if how == 'unknown':
+        how, d = lookup(kids, abbr, last)
+    if how == 'ambiguous':
+        return ('err:runtime_error', [], [], False)
+    if how == 'unknown':
+        return (None, [], [('C', "*** ERROR: Argument '%s' is unknown!" % last)], node < 0)
+    qs, ql = split_key(last)
+    return (None, [('C', "Argument '%s', usage:" % ('-' + qs if qs else '--' + ql)), ('W', _words(d['desc']))], [], node < 0)
+
+
 def _parse_arg(t):
     f = t.split(':')
     return mk_arg(f[1], f[2], unhx(f[3]), '' if f[4] == '-' else f[4], unhx(f[5]), unhx(f[6]),
@@ -341,6 +385,16 @@ def _violation(case, ir):
             if after:
                 read_lines(want_out, after[1])
             printed = True
+        elif c.startswith('ha=') and '/' in unhx(c[3:]):
+            pe = path_expectation(case, flags, args, groups, unhx(c[3:]))
+            if pe is None:
+                return None
+            expect_err, po, pe_err, ptop = pe
+            if expect_err:
+                break
+            want_out += po
+            want_err += pe_err
+            printed = printed or ptop
         elif c.startswith('ha='):
             q = unhx(c[3:])
             how, d = lookup(main_ds, not flags & F['NoAbbr'], q)
@@ -789,8 +843,32 @@ def subgroup_cases(rng, nsets):
     return cases
 
 
+def path_cases():
+    """--help-arg with a path through sub-groups of depth 1..3: every prefix, exact and abbreviated keys, unknown
+    components at every position, with and without abbreviations in each handler, a mandatory argument in the main
+    handler (its final checks run unless the main handler answers itself)"""
+    out = []
+    for fmain, fg, fd in ((0, 0, 0), (F['NoAbbr'], 0, 0), (0, F['NoAbbr'], 0), (0, 0, F['NoAbbr'])):
+        for man in (False, True):
+            f = F['UsageCont'] | F['HelpArg'] | fmain
+            main = [mk_arg('v,verbose', 'b', desc='be verbose'), mk_arg('n,number', 'i', letters='m' if man else '', desc='a number')]
+            groups = [('g,group', fg, 'the group', [mk_arg('i,inner', 'i', desc='inner value'), mk_arg('index', 'i', desc='an index')]),
+                      ('d,deep', fd, 'deeper', [mk_arg('x,xray', 'i', desc='x marks the spot')]),
+                      ('o,other', 0, 'another group', [mk_arg('x', 'i', desc='the other x')]),
+                      ('e,even-deeper', 0, 'third level', [mk_arg('z,zulu', 's', desc='the last one')])]
+            parents = [-1, 0, -1, 1]
+            for q in ('g/i', 'g/d/x', 'g/d', 'group/deep/xray', 'g/d/y', 'g/q/x', 'q/d/x', 'g/d/x/z', 'g/deep/xr', 'gr/de/xr',
+                      'g/in', 'g/ind', 'g/d/e/z', 'g/d/e/zu', 'g/d/e', 'o/x', 'o/d/x', 'g/o/x', 'g/d/e/q', 'g/d/q/z', 'g/v', 'o/h',
+                      '/x', 'g/', 'g//x', 'group/i'):
+                c = mk_case(f, 80, ['ha=' + hx(q)], main)
+                for (k, gf, gd, ga), p in zip(groups, parents):
+                    c += ' g:%s:%d:%s%s' % (k, gf, hx(gd), '' if p < 0 else ':%d' % p) + ''.join(' ' + arg_tok(a) for a in ga)
+                out.append(c)
+    return out
+
+
 def gen_cases(tier, rng):
-    cases = list(CORPUS) + long_word_cases() + subgroup_cases(rng, 6 if tier == 'quick' else 30)
+    cases = list(CORPUS) + long_word_cases() + subgroup_cases(rng, 6 if tier == 'quick' else 30) + path_cases()
     # every combination of the display settings for a family of argument sets
     nsets = 12 if tier == 'quick' else 60
     for args in family_sets(rng, nsets):
@@ -929,7 +1007,11 @@ CLAIM = {
             'not disturb its digest (C18_usage_texts); the usage printed for a sub-group is the usage of exactly that '
             'handler\'s arguments under the settings in force at that moment - the display options given on the main '
             'command line included - so it lists the sub-group\'s visible arguments, each once, and reads as their '
-            'digest (C18_subgroup_usage, _subgroup_settings_shared). The model is tied to '
+            'digest (C18_subgroup_usage, _subgroup_settings_shared); the same object printing its usage again adds exactly '
+            'the text of a first printing (C18_usage_printed_again); --help-arg with a path group/.../argument through '
+            'sub-groups of any depth is answered by the handler at the end of the path as a plain key is, an unknown '
+            'component is reported with the rest of the path, the answer is never silent (C18_help_path_follows_the_groups, '
+            '_unknown_group, _answers, _total). The model is tied to '
             'the code by a correspondence check on a layout-insensitive digest of the text written to the output and '
             'error stream (captions, ordered key texts, words per entry) and on the raw text as internal observable.',
     'note': 'three defects of the pinned tree found and repaired (fixes/C18-1..3): --help-arg with an abbreviated key '
